@@ -258,7 +258,7 @@ func (o *c05wObs) After(w *wWorld, st *wStep) *kit.Viol {
 			agree = false // the topic is loaded by this request: what it announces on loading is another matter
 		}
 		if hadA && hasB && !a.deleted && !b.deleted && agree && (a.want != b.want || a.given != b.given) &&
-			(a.want & a.given).IsPresencer() && (b.want & b.given).IsPresencer() && (b.want & b.given).IsJoiner() {
+			(a.want & a.given).IsPresencer() && (b.want & b.given).IsJoiner() {
 			meRoute := self.UserId()
 			for x, ss := range w.sess {
 				if x == st.Sess || ss == nil || ss.isClosed() || ss.user != st.User {
